@@ -171,6 +171,15 @@ def _finite(x):
         return False
 
 
+def _raised_in_armi(e):
+    """True when the innermost frame of the exception is ARMI code (a contract violation of the API
+    under test); an exception raised by the check's own code must stay a harness error."""
+    tb, last = e.__traceback__, None
+    while tb is not None:
+        last, tb = tb, tb.tb_next
+    return last is not None and "/armi/" in last.tb_frame.f_code.co_filename.replace("\\", "/")
+
+
 # ---------------------------------------------------------------------------------------------
 # enumeration
 
@@ -272,12 +281,14 @@ def _eval_single(case):
         paths = _paths(n, case["maxlen"])
     ref = _Ref(matname)
     vs = []
-    st = {"exec": 0, "nontrivial": 0, "steps": 0, "refused_states": 0, "checked_states": 0, "hotsets": 0, "zero_mass": 0, "fvals": set(), "refuse_exc": set()}
+    st = {"exec": 0, "nontrivial": 0, "steps": 0, "refused_states": 0, "checked_states": 0, "hotsets": 0, "zero_mass": 0, "fvals": set(), "refuse_exc": set(), "_bad_in_exec": False}
     collapse = case.get("collapse")
 
     def bad(clause, disc, msg, start, path, **kw):
-        if len(vs) >= MAX_V:
+        # one violation per execution: the first symptom (later ones follow from it)
+        if len(vs) >= MAX_V or st["_bad_in_exec"]:
             return
+        st["_bad_in_exec"] = True
         cc = {k: case[k] for k in ("kind", "shape", "material", "npts", "maxlen", "scale")}
         cc.update(start=start, path=path)
         cc.update(kw)
@@ -290,9 +301,16 @@ def _eval_single(case):
         ends = {}
         for path in paths:
             st["exec"] += 1
+            st["_bad_in_exec"] = False
             if any(a != b for a, b in zip([start[1]] + path, path)):
                 st["nontrivial"] += 1
-            obs = _run_single(shape, matname, knd, scale, T, start, path, ref, bad, st)
+            try:
+                obs = _run_single(shape, matname, knd, scale, T, start, path, ref, bad, st)
+            except Exception as e:  # noqa: BLE001
+                if not _raised_in_armi(e):
+                    raise
+                bad("unexpected-exception", "%s/%s" % (shape, type(e).__name__), "the component API raised %r" % (e,), start, path)
+                obs = None
             if obs is None:
                 continue
             endi = path[-1] if path else start[1]
@@ -303,6 +321,7 @@ def _eval_single(case):
                     bad("path-dependence", matname, "end state differs from the one reached by path %s: %s" % ([round(T[i], 6) for i in p0], d), start, path, other=p0)
             else:
                 ends[endi] = (obs, path)
+    st.pop("_bad_in_exec", None)
     st["fvals"] = len(st["fvals"])
     st["refuse_exc"] = sorted(st["refuse_exc"])
     st["range"] = [lo, hi, labels, declared]
@@ -381,8 +400,8 @@ def _run_single(shape, matname, knd, scale, T, start, path, ref, bad, st):
                 if must_refuse:
                     refused = True
                     continue
-                bad("dimension-raises", "%s.%s" % (shape, dn), "getDimension(%r) raised %r although the material expands between Tinput and T" % (dn, e), start, cur)
-                continue
+                bad("dimension-raises", "%s.%s" % (shape, dn), "getDimension(%r) raised %r although the material %s" % (dn, e, "expands between Tinput and T" if solid else "is a fluid/custom material that keeps its dimensions"), start, cur)
+                return None
             if must_refuse:
                 bad("silent-zero-expansion", matname, "material gives no expansion between %.6g and %.6g C yet %s reads %r without refusal" % (Tin, Tc, dn, got), start, cur)
                 continue
@@ -410,6 +429,7 @@ def _run_single(shape, matname, knd, scale, T, start, path, ref, bad, st):
                 refused = True
             else:
                 bad("area-raises", shape, "getArea raised %r" % (e,), start, cur)
+                return None
         if area is not None:
             if must_refuse and lengths:
                 pass  # already reported through the dimensions
@@ -417,6 +437,14 @@ def _run_single(shape, matname, knd, scale, T, start, path, ref, bad, st):
                 bad("silent-zero-expansion", matname, "area %r returned without refusal although no expansion is defined" % (area,), start, cur)
             elif _rel(area, cold_area * f * f) > TOL:
                 bad("area-not-f-squared", shape, "area %r, expected cold area %r x f^2 (f=%r) = %r" % (area, cold_area, f, cold_area * f * f), start, cur)
+            T2 = T[(start[1] + k + 1) % len(T)]
+            if solid and not must_refuse and (ref.expands(Tin, T2) or abs(T2 - Tin) <= 1e-10):
+                try:
+                    a2 = c.getArea(Tc=T2)
+                    if _rel(a2, cold_area * ref.f(Tin, T2) ** 2) > TOL:
+                        bad("area-at-Tc", shape, "getArea(Tc=%.6g) = %r expected %r" % (T2, a2, cold_area * ref.f(Tin, T2) ** 2), start, cur)
+                except Exception as e:
+                    bad("area-raises", shape, "getArea(Tc=%.6g) raised %r" % (T2, e), start, cur)
             try:
                 ac = c.getArea(cold=True)
                 if _rel(ac, cold_area) > TOL:
@@ -546,13 +574,14 @@ def _eval_linked(case):
             paths.extend([list(p) for p in itertools.product(ops, repeat=L)])
     reff, refc = _Ref(matname), _Ref(CLAD_MAT)
     vs = []
-    st = {"exec": 0, "nontrivial": 0, "steps": 0, "refused_states": 0, "checked_states": 0, "hotsets": 0, "zero_mass": 0, "fvals": set(), "refuse_exc": set()}
+    st = {"exec": 0, "nontrivial": 0, "steps": 0, "refused_states": 0, "checked_states": 0, "hotsets": 0, "zero_mass": 0, "fvals": set(), "refuse_exc": set(), "_bad_in_exec": False}
     fuel_expands = reff.expands(Tf[0], Tf[1]) and reff.expands(Tf[0], Tf[2])
     collapse = case.get("collapse")
 
     def bad(clause, disc, msg, path):
-        if len(vs) >= MAX_V:
+        if len(vs) >= MAX_V or st["_bad_in_exec"]:
             return
+        st["_bad_in_exec"] = True
         cc = {k: case[k] for k in ("kind", "config", "material", "maxlen", "scale")}
         cc["path"] = path
         if collapse:
@@ -565,96 +594,108 @@ def _eval_linked(case):
         st["fvals"] = 0
         st["refuse_exc"] = sorted(st["refuse_exc"])
         st["skipped_linked"] = 1
+        st.pop("_bad_in_exec", None)
         return vs, st
 
     for path in paths:
         st["exec"] += 1
-        tf, tc = 1, 1  # fuel hot = Tf[1], input Tf[0]; clad hot = Tcl[1], input Tcl[0]
+        st["_bad_in_exec"] = False
+        # fuel hot = Tf[1], input Tf[0]; clad hot = Tcl[1], input Tcl[0]
         try:
             b, comps, links = _build_linked(cfg, matname, (Tf[0], Tf[1]), (Tcl[0], Tcl[1]), scale)
         except Exception as e:
             bad("construct-raises", "linked/%s" % type(e).__name__, "construction raised %r" % (e,), path)
             continue
-        fuel, clad = comps["fuel"], comps["clad"]
-        linf0 = _lin_mass(fuel, fuel.getArea())
-        changed = False
-        for k in range(len(path) + 1):
-            if k > 0:
-                who, i = path[k - 1]
-                st["steps"] += 1
-                try:
-                    if who == "fuel":
-                        changed = changed or i != tf
-                        tf = i
-                        fuel.setTemperature(Tf[i])
-                    elif who == "clad":
-                        changed = changed or i != tc
-                        tc = i
-                        clad.setTemperature(Tcl[i])
-                    else:
-                        comps["bond"].setTemperature(Tb[i])
-                except Exception as e:
-                    bad("setTemperature-raises", "linked/%s" % type(e).__name__, "setTemperature on %s raised %r" % (who, e), path[:k])
-                    break
-            cur = path[:k]
-            ff = reff.f(Tf[0], Tf[tf])
-            fc = refc.f(Tcl[0], Tcl[tc])
-            st["fvals"].add((round(ff, 12), round(fc, 12)))
-            st["checked_states"] += 1
-            want = {("fuel", "od"): 0.8 * scale * ff, ("fuel", "mult"): 7.0, ("clad", "od"): 1.2 * scale * fc}
-            if cfg == "pin":
-                want[("clad", "id")] = 1.0 * scale * fc
-            for (cn, dn), w in sorted(want.items()):
-                got = comps[cn].getDimension(dn)
-                if _rel(got, w) > TOL:
-                    bad("dimension-not-scaled", "linked.%s.%s" % (cn, dn), "%s.%s reads %r expected %r" % (cn, dn, got, w), cur)
-            for cn, dn, tn, tdn in links:
-                got = comps[cn].getDimension(dn)
-                tgt = comps[tn].getDimension(tdn)
-                if got != tgt or _rel(got, want[(tn, tdn)]) > TOL:
-                    bad("link-not-current", "%s.%s<-%s.%s" % (cn, dn, tn, tdn), "%s.%s reads %r but %s.%s is %r (oracle %r)" % (cn, dn, got, tn, tdn, tgt, want[(tn, tdn)]), cur)
-                gcold = comps[cn].getDimension(dn, cold=True)
-                tcold = comps[tn].getDimension(tdn, cold=True)
-                if gcold != tcold:
-                    bad("link-not-current", "%s.%s<-%s.%s" % (cn, dn, tn, tdn), "cold %s.%s reads %r but cold %s.%s is %r" % (cn, dn, gcold, tn, tdn, tcold), cur)
-                if not comps[cn].dimensionIsLinked(dn):
-                    bad("link-lost", "%s.%s<-%s.%s" % (cn, dn, tn, tdn), "%s.%s is no longer a link" % (cn, dn), cur)
-            # areas and cached volumes of every component follow the current dimensions
-            fod, cod = want[("fuel", "od")], want[("clad", "od")]
-            cid = want[("clad", "id")] if cfg == "pin" else fod
-            areas = {"fuel": PI / 4.0 * fod**2 * 7.0, "clad": PI / 4.0 * (cod**2 - cid**2) * 7.0}
-            if cfg == "pin":
-                areas["bond"] = PI / 4.0 * (cid**2 - fod**2) * 7.0
-            for cn, wa in sorted(areas.items()):
-                a = comps[cn].getArea()
-                if _rel(a, wa) > 1e-9:  # difference of squares of nearly equal numbers
-                    bad("link-area", "linked.%s" % cn, "%s area %r expected %r from the current diameters" % (cn, a, wa), cur)
-                v = comps[cn].getVolume()
+        def body(b=b, comps=comps, links=links, path=path):
+            tf, tc = 1, 1
+            fuel, clad = comps["fuel"], comps["clad"]
+            linf0 = _lin_mass(fuel, fuel.getArea())
+            changed = False
+            for k in range(len(path) + 1):
+                if k > 0:
+                    who, i = path[k - 1]
+                    st["steps"] += 1
+                    try:
+                        if who == "fuel":
+                            changed = changed or i != tf
+                            tf = i
+                            fuel.setTemperature(Tf[i])
+                        elif who == "clad":
+                            changed = changed or i != tc
+                            tc = i
+                            clad.setTemperature(Tcl[i])
+                        else:
+                            comps["bond"].setTemperature(Tb[i])
+                    except Exception as e:
+                        bad("setTemperature-raises", "linked/%s" % type(e).__name__, "setTemperature on %s raised %r" % (who, e), path[:k])
+                        break
+                cur = path[:k]
+                ff = reff.f(Tf[0], Tf[tf])
+                fc = refc.f(Tcl[0], Tcl[tc])
+                st["fvals"].add((round(ff, 12), round(fc, 12)))
+                st["checked_states"] += 1
+                want = {("fuel", "od"): 0.8 * scale * ff, ("fuel", "mult"): 7.0, ("clad", "od"): 1.2 * scale * fc}
+                if cfg == "pin":
+                    want[("clad", "id")] = 1.0 * scale * fc
+                for (cn, dn), w in sorted(want.items()):
+                    got = comps[cn].getDimension(dn)
+                    if _rel(got, w) > TOL:
+                        bad("dimension-not-scaled", "linked.%s.%s" % (cn, dn), "%s.%s reads %r expected %r" % (cn, dn, got, w), cur)
+                for cn, dn, tn, tdn in links:
+                    got = comps[cn].getDimension(dn)
+                    tgt = comps[tn].getDimension(tdn)
+                    if got != tgt or _rel(got, want[(tn, tdn)]) > TOL:
+                        bad("link-not-current", "%s.%s<-%s.%s" % (cn, dn, tn, tdn), "%s.%s reads %r but %s.%s is %r (oracle %r)" % (cn, dn, got, tn, tdn, tgt, want[(tn, tdn)]), cur)
+                    gcold = comps[cn].getDimension(dn, cold=True)
+                    tcold = comps[tn].getDimension(tdn, cold=True)
+                    if gcold != tcold:
+                        bad("link-not-current", "%s.%s<-%s.%s" % (cn, dn, tn, tdn), "cold %s.%s reads %r but cold %s.%s is %r" % (cn, dn, gcold, tn, tdn, tcold), cur)
+                    if not comps[cn].dimensionIsLinked(dn):
+                        bad("link-lost", "%s.%s<-%s.%s" % (cn, dn, tn, tdn), "%s.%s is no longer a link" % (cn, dn), cur)
+                # areas and cached volumes of every component follow the current dimensions
+                fod, cod = want[("fuel", "od")], want[("clad", "od")]
+                cid = want[("clad", "id")] if cfg == "pin" else fod
+                areas = {"fuel": PI / 4.0 * fod**2 * 7.0, "clad": PI / 4.0 * (cod**2 - cid**2) * 7.0}
+                if cfg == "pin":
+                    areas["bond"] = PI / 4.0 * (cid**2 - fod**2) * 7.0
+                for cn, wa in sorted(areas.items()):
+                    a = comps[cn].getArea()
+                    if _rel(a, wa) > 1e-9:  # difference of squares of nearly equal numbers
+                        bad("link-area", "linked.%s" % cn, "%s area %r expected %r from the current diameters" % (cn, a, wa), cur)
+                    v = comps[cn].getVolume()
+                    if _rel(v, a * HEIGHT) > TOL:
+                        bad("link-volume-stale", "linked.%s" % cn, "%s getVolume %r but current area x height = %r" % (cn, v, a * HEIGHT), cur)
+                lf = _lin_mass(fuel, fuel.getArea())
+                if _rel(lf, linf0) > TOL:
+                    bad("mass-per-height", matname, "fuel mass per unit height %r, was %r" % (lf, linf0), cur)
+            else:
+                if changed:
+                    st["nontrivial"] += 1
+                # hot set on the link target is seen through the link; hot set through the link lands on the target
+                who, dn = ("bond", "id") if cfg == "pin" else ("clad", "id")
+                v = fuel.getDimension("od") * 0.9
+                fuel.setDimension("od", v, cold=False)
+                st["hotsets"] += 1
+                got = comps[who].getDimension(dn)
+                if _rel(got, v) > TOL_READBACK or _rel(fuel.getDimension("od"), v) > TOL_READBACK:
+                    bad("hot-set-readback", "linked.fuel.od", "fuel.od set hot to %r: fuel reads %r, %s.%s reads %r" % (v, fuel.getDimension("od"), who, dn, got), path)
+                v2 = v * 0.95
+                comps[who].setDimension(dn, v2, retainLink=True, cold=False)
+                st["hotsets"] += 1
+                if _rel(fuel.getDimension("od"), v2) > TOL_READBACK or comps[who].getDimension(dn) != fuel.getDimension("od") or not comps[who].dimensionIsLinked(dn):
+                    bad("hot-set-through-link", "linked.%s.%s" % (who, dn), "%s.%s set hot to %r with retainLink: fuel.od reads %r, link reads %r" % (who, dn, v2, fuel.getDimension("od"), comps[who].getDimension(dn)), path)
+                a = comps[who].getArea()
+                v = comps[who].getVolume()
                 if _rel(v, a * HEIGHT) > TOL:
-                    bad("link-volume-stale", "linked.%s" % cn, "%s getVolume %r but current area x height = %r" % (cn, v, a * HEIGHT), cur)
-            lf = _lin_mass(fuel, fuel.getArea())
-            if _rel(lf, linf0) > TOL:
-                bad("mass-per-height", matname, "fuel mass per unit height %r, was %r" % (lf, linf0), cur)
-        else:
-            if changed:
-                st["nontrivial"] += 1
-            # hot set on the link target is seen through the link; hot set through the link lands on the target
-            who, dn = ("bond", "id") if cfg == "pin" else ("clad", "id")
-            v = fuel.getDimension("od") * 0.9
-            fuel.setDimension("od", v, cold=False)
-            st["hotsets"] += 1
-            got = comps[who].getDimension(dn)
-            if _rel(got, v) > TOL_READBACK or _rel(fuel.getDimension("od"), v) > TOL_READBACK:
-                bad("hot-set-readback", "linked.fuel.od", "fuel.od set hot to %r: fuel reads %r, %s.%s reads %r" % (v, fuel.getDimension("od"), who, dn, got), path)
-            v2 = v * 0.95
-            comps[who].setDimension(dn, v2, retainLink=True, cold=False)
-            st["hotsets"] += 1
-            if _rel(fuel.getDimension("od"), v2) > TOL_READBACK or comps[who].getDimension(dn) != fuel.getDimension("od") or not comps[who].dimensionIsLinked(dn):
-                bad("hot-set-through-link", "linked.%s.%s" % (who, dn), "%s.%s set hot to %r with retainLink: fuel.od reads %r, link reads %r" % (who, dn, v2, fuel.getDimension("od"), comps[who].getDimension(dn)), path)
-            a = comps[who].getArea()
-            v = comps[who].getVolume()
-            if _rel(v, a * HEIGHT) > TOL:
-                bad("link-volume-stale", "linked.%s" % who, "%s getVolume %r but area x height = %r after hot set" % (who, v, a * HEIGHT), path)
+                    bad("link-volume-stale", "linked.%s" % who, "%s getVolume %r but area x height = %r after hot set" % (who, v, a * HEIGHT), path)
+
+        try:
+            body()
+        except Exception as e:  # noqa: BLE001
+            if not _raised_in_armi(e):
+                raise
+            bad("unexpected-exception", "linked/%s" % type(e).__name__, "the component API raised %r" % (e,), path)
+    st.pop("_bad_in_exec", None)
     st["fvals"] = len(st["fvals"])
     st["refuse_exc"] = sorted(st["refuse_exc"])
     return vs, st
